@@ -13,8 +13,12 @@ META = {
              'rejected writes mixed in and after every recovery of the C01 crash explorer; the harness compares the same dumps '
              'with f(stored documents) computed from its own copy.'),
     'design_ref': 'DESIGN.md section 4 / C02',
-    'note': ('Proved: recovery establishes Consistent and every completed add/update/remove/flush preserves it; rejected writes '
-             '(rollback closures) and index creation/removal are checked by the monitor at every quiescent point, not proved. HNSW: soundness of search results, '
+    'note': ('Proved: recovery establishes Consistent and every completed add/update/remove/flush preserves it; for rejected writes '
+             'the rollback closures of add/update/remove are proved, over the generated order of their loops and the generated '
+             'registration points, to restore the entry of the document id in the id-keyed indexes (BM25, HNSW) whichever stage '
+             'refused (the B-tree reverse update and index creation/removal are monitor-checked only). Rejections are produced at '
+             'the schema stage (wrong type), the B-tree stage (duplicate unique value) and the HNSW stage (wrong dimension, NaN, '
+             'infinity); the BM25 stage cannot reject through the public API (tokenless text is accepted by design). HNSW: soundness of search results, '
              'entry count and self-retrieval are checked (recall is C12). Text is tokenised by the implementation (trusted).'),
     'technique': 'Coq proof (derivation model, sound monitor, recovery convergence) + translator-generated orders + correspondence of full index dumps',
 }
@@ -22,7 +26,10 @@ META = {
 
 def run(ck):
     quick = ck.tier == 'quick'
-    ck.rule = ('histories of 10-24 ops over a schema with a unique text field, U64, I64, optional text, text array, wildcard map, '
+    ck.rule = ('7 of 100 ops are writes one stage must reject (update 2/3, add 1/3; HNSW wrong dimension 3 and 5, NaN, infinity; schema '
+               'wrong type; besides the duplicate-uid adds/updates), on documents that carry a value in every index kind, with other '
+               'fields changed in the same patch; 1/3 of them are followed by flush + reopen; an accepted invalid write is a failure; '
+               'histories of 10-24 ops over a schema with a unique text field, U64, I64, optional text, text array, wildcard map, '
                'text body and vector; ten indexes (unique, scalar, optional, array, map-keyed, composite, 2 x BM25, HNSW) created and '
                'removed across reopens; full two-directional dump after every op (quiescent) and after every recovery (every crash '
                'point k, nested for a sample, 3 backends, unknown-outcome faults); non-trivial = a dump with >= 2 stored documents')
